@@ -372,3 +372,5 @@ def run(pm, ctx):
     from ..conddrift import run_decisions
     from ..ownership import OWN
     run_decisions(pm, ctx, 'C16-RD', OWN['C16'])
+    from .. import exprdrift
+    exprdrift.run(pm, ctx, 'C16-RE', OWN['C16'])
